@@ -39,7 +39,7 @@ import (
 
 const c10Rule = "case = configuration of epoch A in which 0, 1 or 2 index roles (cid_to_offset_and_size, slot_to_cid, sig_to_cid, sig_exists, gsfa, slot_to_blocktime) carry a fault; " +
 	"fault menu per role: epoch (file written by the repository's writer from A's data with B's epoch number), root (…with B's root CID), epoch+root (both), whole-B (B's real index), " +
-	"kind<-X (the file of every other role X, and the gsfa directory's inner pubkey index, configured in this role); all singles and ALL pairs of faults on two different roles, plus A's gsfa directory with only its inner pubkey index replaced by one that records B's epoch, B's root, both, or is B's own, " +
+	"kind<-X (the file of every other role X, and the gsfa directory's inner pubkey index, configured in this role); all singles and ALL pairs of faults on two different roles, plus A's gsfa directory with only its inner pubkey index, or only its manifest, replaced by one that records B's epoch, B's root, both, or is B's own, " +
 	"plus: every root-carrying index with B's root (they agree with each other), all indexes from B with A's CAR, A's indexes with B's CAR (local file and ReaderAt), B's configuration with A's CAR, gsfa left out. " +
 	"Oracle: NewEpochFromConfig fails whenever some configured file is of the wrong kind, records an epoch other than the configured one, or records a root CID that differs from another configured index; the fault-free configuration loads; " +
 	"whenever loading succeeds every GetNodeByCid of the epoch's archived objects fails or returns exactly that CID's bytes. " +
@@ -310,17 +310,20 @@ func (w *c10World) path(f c10Fault) string {
 		return w.AA[f.From]
 	default:
 		if strings.HasPrefix(f.Field, "inner-") {
-			return w.innerSwapped(strings.TrimPrefix(f.Field, "inner-"))
+			return w.innerSwapped(strings.TrimPrefix(f.Field, "inner-"), string(indexes.Kind_PubkeyToOffsetAndSize)+".index")
+		}
+		if strings.HasPrefix(f.Field, "manifest-") {
+			return w.innerSwapped(strings.TrimPrefix(f.Field, "manifest-"), "manifest")
 		}
 		return w.V[f.Field][f.Role]
 	}
 }
 
-// innerSwapped returns a copy of A's gsfa directory (manifest and linked log untouched) whose inner pubkey index is
+// innerSwapped returns a copy of A's gsfa directory (manifest and linked log untouched) in which one file (the inner pubkey index, or the manifest) is
 // the one of the given variant ("epoch", "root", "epoch+root": written from A's ground truth with that identity;
 // "whole-B": B's own). Only the identity recorded inside that one file tells it apart from A's.
-func (w *c10World) innerSwapped(variant string) string {
-	dst := w.A.GsfaDir + "-inner-" + strings.ReplaceAll(variant, "+", "-")
+func (w *c10World) innerSwapped(variant string, inner string) string {
+	dst := w.A.GsfaDir + "-" + strings.TrimSuffix(inner, ".index") + "-" + strings.ReplaceAll(variant, "+", "-")
 	if _, err := os.Stat(dst); err == nil {
 		return dst
 	}
@@ -335,7 +338,6 @@ func (w *c10World) innerSwapped(variant string) string {
 	if err != nil {
 		panic(err)
 	}
-	inner := string(indexes.Kind_PubkeyToOffsetAndSize) + ".index"
 	for _, e := range ents {
 		from := filepath.Join(w.A.GsfaDir, e.Name())
 		if e.Name() == inner {
@@ -745,6 +747,7 @@ func TestVerif_C10(t *testing.T) {
 	rootRoles := []string{"cid_to_offset_and_size", "slot_to_cid", "sig_to_cid", "sig_exists", "gsfa"}
 	for _, v := range []string{"epoch", "root", "epoch+root", "whole-B"} {
 		special("gsfa directory of A whose inner pubkey index records another identity:", "inner-"+v, []string{"gsfa"}, "", "")
+		special("gsfa directory of A whose manifest records another identity:", "manifest-"+v, []string{"gsfa"}, "", "")
 	}
 	special("every root-carrying index records B's root", "root", rootRoles, "", "")
 	special("all indexes from B, CAR from A", "whole-B", c10Roles, "", "")
@@ -771,7 +774,7 @@ func TestVerif_C10(t *testing.T) {
 		}
 		for _, f := range c.Faults {
 			switch f.Field {
-			case "kind", "epoch", "epoch+root", "whole-B", "inner-epoch", "inner-root", "inner-epoch+root", "inner-whole-B":
+			case "kind", "epoch", "epoch+root", "whole-B", "inner-epoch", "inner-root", "inner-epoch+root", "inner-whole-B", "manifest-epoch", "manifest-root", "manifest-epoch+root", "manifest-whole-B":
 				demand = true // (inner-root: the other files record A's root, so the files disagree)
 			case "root":
 				roots[f.Role] = true
